@@ -6,5 +6,6 @@ CONSTANTS
   MaxRestarts = 2
   UpdateOnInstall = TRUE
   RestoreOnRestart = TRUE
-INVARIANTS TypeOK SnapConfExact LibConfExact HostConfExact
+  JoinerKnows = TRUE
+INVARIANTS TypeOK SnapConfExact LibConfExact HostConfExact NoFork
 CHECK_DEADLOCK FALSE
